@@ -246,17 +246,17 @@ def run(ctx):
             g = f.generate(N)
             inside = all(np.all((g[:, d] >= xs[d][0] - 1e-12) & (g[:, d] <= xs[d][-1] + 1e-12)) for d in range(nd))
             ctx.check("InterpND: generated points inside the grid box", bool(inside), desc, mechanism="InterpND range")
-            # chi2 against the interpolant integrated over the grid cells (multilinear: cell mean = mean of the corners)
-            H, _ = np.histogramdd(g, bins=xs)
-            cm = z.copy()
-            for d in range(nd):
-                cm = 0.5 * (np.take(cm, range(0, cm.shape[d] - 1), axis=d) + np.take(cm, range(1, cm.shape[d]), axis=d))
-            vol = np.ones_like(cm)
+            # chi2 against the interpolant integrated over every grid cell split in two along each axis (the shape INSIDE a cell
+            # is part of the target): the integral of a multilinear function over a box is its value at the centre times the volume
+            edges = [np.sort(np.concatenate([a, 0.5 * (a[1:] + a[:-1])])) for a in xs]
+            H, _ = np.histogramdd(g, bins=edges)
+            centres = np.meshgrid(*[0.5 * (e[1:] + e[:-1]) for e in edges], indexing="ij")
+            vol = np.ones_like(centres[0])
             for d in range(nd):
                 shp = [1] * nd
                 shp[d] = -1
-                vol = vol * np.diff(xs[d]).reshape(shp)
-            exp = cm * vol
+                vol = vol * np.diff(edges[d]).reshape(shp)
+            exp = RegularGridInterpolator(xs, z)(np.stack([c.ravel() for c in centres], axis=-1)).reshape(vol.shape) * vol
             exp = exp / exp.sum() * N
             pv, x2, ndf = chi2_p(H.ravel(), exp.ravel())
             if pv is not None:
